@@ -1519,7 +1519,7 @@ async fn run_stream(cx: &Ctx<'_>, rng: &mut Rng, idx: u64) {
 /// end of the TCP connection reads EOF (the client's socket was dropped).
 async fn run_cancel_case(cx: &Ctx<'_>, rng: &mut Rng) {
     use tokio::net::TcpListener;
-    let listener = match TcpListener::bind("127.0.0.1:0").await {
+    let listener = match crate::verif_hooks::bind_retry("127.0.0.1:0".parse().unwrap()).await {
         Ok(l) => l,
         Err(_) => {
             cx.count("unjudged:loopback-unavailable");
@@ -1544,6 +1544,7 @@ async fn run_cancel_case(cx: &Ctx<'_>, rng: &mut Rng) {
         cancel.cancel();
         return;
     };
+    crate::verif_hooks::no_time_wait(&sock);
     cx.log(format!("T: try_connect({}) accepted", sockaddr));
     let pdus = cache.full_response(rng);
     for p in &pdus {
